@@ -167,7 +167,9 @@ func capture(log *mon.Log, fn func()) []mon.Event {
 
 var bg = context.Background()
 
-func ts0() time.Time { return time.Date(2024, 2, 29, 13, 4, 5, 123456789, time.FixedZone("X", 5*3600+1800)) }
+func ts0() time.Time {
+	return time.Date(2024, 2, 29, 13, 4, 5, 123456789, time.FixedZone("X", 5*3600+1800))
+}
 
 // jsonRecord is the decoded envelope of a JSON record.
 func reservedJSON(named bool) map[string]bool {
@@ -288,4 +290,33 @@ func randomOtherFlags(r *gen.R, keep ...slog.Flags) []string {
 		}
 	}
 	return names
+}
+
+// doomedRecord logs, through a logger of its own, a record one of whose values (inside a group) panics while it is
+// being formatted; the application recovers, as a service with a recover middleware does. Nothing of that record may
+// show in any later one.
+func doomedRecord(f Format, w io.Writer) {
+	defer func() { _ = recover() }()
+	lg := newRoot("doomed", f, w, slog.AlwaysLevel)
+	lg.Info("doomed", "aa-doomed", 1, "req-doomed", slog.NewGroupedAttrEasy("inner", "user", panicky{}), "zz-doomed", 2)
+}
+
+// randomTimestampOptions gives the logger, in about a third of the cases, a timestamp layout of its own and/or a zone
+// mode. These options concern the record's timestamp only (C16); attribute values are rendered as before.
+func randomTimestampOptions(r *gen.R, lg *slog.Entry) string {
+	d := ""
+	if r.P(20) {
+		l := gen.Pick(r, []string{time.RFC1123, time.Kitchen, "2006-01-02", time.RFC3339, "15:04:05.000", time.RFC850, "Jan _2 15:04"})
+		lg.SetTimeFormat(l)
+		d += "layout=" + l
+	}
+	if r.P(20) {
+		u := r.Bool()
+		lg.SetUTCMode(u)
+		d += fmt.Sprintf(" utc=%v", u)
+	}
+	if d == "" {
+		return "-"
+	}
+	return d
 }
